@@ -72,15 +72,16 @@ class History:
         self.snaps.append({'name': res.name, 'owner': u, 'files': None, 'alive': True, 'chunks': list(res.chunks), 'fs': None})
         return res
 
-    def delete_latest(self, u):
+    def delete_latest(self, u, n=1):
         mine = [s for s in self.snaps if s['alive'] and (s['owner'] == u or not self.U.encrypted)]
         if not mine:
             return None
-        s = mine[-1]
+        victims = mine[-n:]
         r = fresh_repo(self.U, u, self.be, concurrent=self.concurrent) if self.fresh_destructive else self.repo(u)
-        self.run(r.delete_snapshots([s['name']], confirm=False))
-        s['alive'] = False
-        return s
+        self.run(r.delete_snapshots([s['name'] for s in victims], confirm=False))
+        for s in victims:
+            s['alive'] = False
+        return victims[-1]
 
     def clean(self, u):
         r = fresh_repo(self.U, u, self.be, concurrent=self.concurrent) if self.fresh_destructive else self.repo(u)
@@ -297,7 +298,7 @@ def e_dedup_ops(k: int) -> bool:
                     if op == 'snap':
                         h.snapshot(u, fs)
                     elif op == 'del':
-                        h.delete_latest(u)
+                        h.delete_latest(u, n=2 if (c0 + c2) % 3 == 0 else 1)      # sometimes two snapshots in one delete call
                     else:
                         h.clean(u)
             except Exception as e:
@@ -308,6 +309,13 @@ def e_dedup_ops(k: int) -> bool:
                     for dg in s['chunks']:
                         if h.repos[s['owner']]._chunk_digest_to_location(dg) not in h.be.objs:
                             ok, msg = False, f'chunk referenced by live snapshot of {s["owner"]} is not stored'
+                if ok and OPS[c2][0] == 'del':
+                    # the history ended with delete + a final snapshot of set 0 by A: nothing but referenced chunks and
+                    # orphans of EARLIER interrupted work may remain; there was none, so objects == referenced already
+                    want0 = {h.repos[s['owner']]._chunk_digest_to_location(dg) for s in alive for dg in s['chunks']}
+                    have0 = {k2 for k2 in h.be.objs if k2.startswith('data/')}
+                    if have0 != want0:
+                        ok, msg = False, f'after delete: {len(have0)} chunk objects stored, {len(want0)} distinct chunks referenced (no clean needed in a crash-free history)'
                 fresh_repo(h.U, 'A', h.be) and h.run(fresh_repo(h.U, 'A', h.be).clean())
                 h.run(fresh_repo(h.U, 'C', h.be).clean())
                 want = {h.repos[s['owner']]._chunk_digest_to_location(dg) for s in alive for dg in s['chunks']}
